@@ -55,12 +55,15 @@ def gen(ctx):
     return cases
 
 
-def run_impl(case):
+def run_impl(case, defer=False):
+    """Run the script on the implementation. With `defer`, the queries split off by take()/tee() are
+    consumed only after everything else (the property does not depend on who is consumed first)."""
     import jsonpath
 
     k = case["k"]
     q = jsonpath.query("$[*]", list(range(k)))
     outs = []
+    pending = []
     for op in case["ops"]:
         name = op[0]
         try:
@@ -70,10 +73,20 @@ def run_impl(case):
                     return {"err": f"{name} did not return the query"}
             elif name == "take":
                 t = q.take(op[1])
-                outs.append({"taken": list(t.values())})
+                if defer:
+                    slot = {"taken": None}
+                    outs.append(slot)
+                    pending.append((slot, "taken", t))
+                else:
+                    outs.append({"taken": list(t.values())})
             elif name == "tee":
                 ch = q.tee(op[1])
-                outs.append({"children": [list(c.values()) for c in ch[1:]]})
+                if defer:
+                    slot = {"children": None}
+                    outs.append(slot)
+                    pending.append((slot, "children", ch[1:]))
+                else:
+                    outs.append({"children": [list(c.values()) for c in ch[1:]]})
                 if not ch:
                     return {"outs": outs, "final": []}
                 q = ch[0]
@@ -97,6 +110,8 @@ def run_impl(case):
             fin.append(o)
     else:
         fin = [int(str(p)[1:]) for p in q.pointers()]
+    for slot, key, obj in pending:
+        slot[key] = list(obj.values()) if key == "taken" else [list(c.values()) for c in obj]
     return {"outs": outs, "final": fin}
 
 
@@ -118,6 +133,11 @@ def evaluate(ctx, cases):
             ctx.violation("model differs from the list specification (proof obligation chain_refines_list)", c, mod, spec)
         if impl != spec:
             ctx.violation("the matches produced by a chain of query-iterator operations must be those of the corresponding list operations", c, impl, spec)
+        if any(op[0] in ("take", "tee") for op in c["ops"]):
+            late = run_impl(c, defer=True)
+            ctx.count("deferred")
+            if late != spec:
+                ctx.violation("take/tee must split matches off independently of which query is consumed first", {**c, "consumption": "split-off queries consumed last"}, late, spec)
 
 
 def search(ctx):
